@@ -1,5 +1,5 @@
 //! impl side of the "name" stream (C16).
-use crate::util::*;
+use super::util::*;
 use dns_types::protocol::types::*;
 use dns_types::zones::types::*;
 
